@@ -159,6 +159,7 @@ def run(ctx, build):
                     try:
                         with common.quiet():
                             u = usid.USIDataset(main)
+                            gen.Bystander.get(ctx.tmp).touch()
                         sizes = ([int(x) for x in u.pos_dim_sizes], [int(x) for x in u.spec_dim_sizes], [int(x) for x in u.n_dim_sizes])
                         if sizes != (lay2.pos_sizes, lay2.spec_sizes, lay2.pos_sizes + lay2.spec_sizes):
                             violate('USIDataset.pos_dim_sizes/spec_dim_sizes/n_dim_sizes', cls, 'sizes_wrong', '%s on %s' % (sizes, d2), d2)
@@ -177,6 +178,42 @@ def run(ctx, build):
                         violate('USIDataset accessors', cls, 'raises_' + type(e).__name__, '%r on %s' % (e, d2), d2)
         if len(out.samples) < 4 and k >= 2:
             out.samples.append(dict(desc, spec_indices=gc.mat(spec_i)))
+    # ---- designed, seed-independent, integer / exact-float oracle only (too large or outside the dyadic value model)
+    hist['designed_wide_cases'] = 0
+    # (a) reference values that differ by far less than any "closeness" tolerance must still count as different values
+    for base, step in ((1.0, 1e-7), (300000.0, 1.0), (2e-9, 1e-12)):
+        for sz, order in (([4, 3], [0, 1]), ([3, 4], [1, 0]), ([2, 3, 2], [0, 2, 1])):
+            lay = gen.Layout(sz, order, sz, order)
+            inds = lay.spec_inds()
+            vals = np.array([base * (d + 1) + inds[d] * step for d in range(len(sz))], dtype=np.float64)
+            desc = {'sizes': sz, 'order_fast_to_slow': order, 'values': 'base %g step %g' % (base, step)}
+            hist['designed_wide_cases'] += 1
+            try:
+                ri = create_spec_inds_from_vals(vals)
+                okc = np.array_equal(np.asarray(ri, dtype=np.int64), inds.astype(np.int64))
+            except Exception as e:
+                okc = False
+            if not okc:
+                violate('anc_build_utils.create_spec_inds_from_vals', 'closely_spaced_values', 'indices_not_reproduced', str(desc), desc)
+    # (b) index matrices stored in a narrow integer type whose range a dimension fills exactly; (c) more points than 16 bits count
+    wide = [(np.uint8, [256, 2], [0, 1]), (np.uint8, [2, 256], [0, 1]), (np.uint16, [65536, 2], [0, 1]), (np.uint32, [3, 21846], [0, 1]),
+            (np.uint32, [13108, 5], [0, 1]), (np.uint32, [21846, 3], [1, 0])]
+    for dt, sz, order in wide:
+        lay = gen.Layout(sz, order, sz, order)
+        inds = lay.spec_inds().astype(dt)
+        desc = {'sizes': sz, 'order_fast_to_slow': order, 'index_dtype': np.dtype(dt).name}
+        hist['designed_wide_cases'] += 1
+        for shape_name, arr in (('spectroscopic-shaped', inds), ('position-shaped', inds.T)):
+            try:
+                so = [int(x) for x in get_sort_order(inds)]
+                dims = [int(x) for x in get_dimensionality(arr)]
+            except Exception as e:
+                violate('hdf_utils.get_sort_order / get_dimensionality', 'wide_or_narrow_typed_grid', 'raises_' + type(e).__name__, '%r on %s' % (e, desc), desc)
+                continue
+            if so != list(order):
+                violate('hdf_utils.get_sort_order', 'wide_or_narrow_typed_grid', 'order_wrong', '%s on %s' % (so, desc), desc)
+            if dims != list(sz):
+                violate('hdf_utils.get_dimensionality', 'wide_or_narrow_typed_grid', 'sizes_wrong', '%s: %s on %s' % (shape_name, dims, desc), desc)
     b1, e1 = common.coq_eval_cases(ctx, HEADER, scases, 'check09s', case_type='case09s', tag='s')
     b2, e2 = common.coq_eval_cases(ctx, HEADER, ucases, 'check09u', case_type='case09u', tag='u')
     b3, e3 = common.coq_eval_cases(ctx, HEADER, ccases, 'check09c', case_type='case09c', tag='c')
@@ -187,7 +224,7 @@ def run(ctx, build):
     out.rule = ('grids with <= 3 dimensions, sizes 1..3, every storage permutation (%s) plus a hand-picked family with as many / more '
                 'dimensions than points, square matrices and 4 dimensions; each grid is given spectroscopic- and position-shaped, as numpy / dask, '
                 'to get_sort_order, get_dimensionality, get_unit_values (is_spec explicit and guessed), create_spec_inds_from_vals, and through '
-                'USIDataset accessors; non-trivial = >= 2 dimensions of size >= 2 not stored fastest-first (distinct (sizes, order))'
+                'USIDataset accessors; designed: closely spaced reference values, uint8 / uint16 index matrices with a dimension of 256 / 65536 steps, grids of 65 538 / 65 540 points (exact oracle only); non-trivial = >= 2 dimensions of size >= 2 not stored fastest-first (distinct (sizes, order))'
                 % ('exhaustive' if not ctx.quick() else 'sample of 70'))
     out.histogram = hist
     out.trusted = ['numpy unique/where/diff/argsort as mirrored in the model', 'float32 dyadic values compared exactly after scaling by 4']
